@@ -532,8 +532,8 @@ Definition audited_getnodedata : list (string * string * bool * N) :=
     ("XPath/XObject.hpp", "string", true, 3%N);
     ("XPath/XPath.cpp", "XPath::functionStringLength", true, 1%N);
     ("XPath/XPath.cpp", "XPath::functionSum", true, 1%N);
-    ("XSLT/ElemValueOf.cpp", "ElemValueOf::execute", true, 1%N);
-    ("XSLT/ElemValueOf.cpp", "ElemValueOf::startElement", true, 1%N);
+    ("XSLT/ElemValueOf.cpp", "ElemValueOf::execute", true, 2%N);
+    ("XSLT/ElemValueOf.cpp", "ElemValueOf::startElement", true, 2%N);
     ("XSLT/FunctionDocument.cpp", "FunctionDocument::doExecute", true, 1%N);
     ("XSLT/FunctionKey.cpp", "FunctionKey::execute", true, 1%N);
     ("XSLT/KeyTable.cpp", "KeyTable::processKeyDeclaration", true, 1%N);
